@@ -705,12 +705,12 @@ func TestVerifC19Store(t *testing.T) {
 }
 
 // TestVerifC19ExhaustiveStore: the same small space through the real stores (unordered lists: the order
-// dimension is covered by the pure block). Thorough tier (or VERIF_C19_EXH_STORE=1): 3 IDs; quick tier: 2 IDs.
+// dimension is covered by the pure block). VERIF_C19_EXH_STORE_IDS=2 shrinks it.
 func TestVerifC19ExhaustiveStore(t *testing.T) {
 	rec := verifkit.For("C19")
 	defer rec.Flush()
-	nIDs := 2
-	if verifkit.Thorough() || verifkit.EnvInt("VERIF_C19_EXH_STORE", 0) != 0 {
+	nIDs := verifkit.EnvInt("VERIF_C19_EXH_STORE_IDS", 3)
+	if nIDs < 1 || nIDs > 3 {
 		nIDs = 3
 	}
 	shard, n := verifC19Shard()
